@@ -685,7 +685,20 @@ def mon_c13(ex, info, col):
                 for cn in lst:
                     where.setdefault(cn, []).append(wpn)
                     if comps[cn][1] != wpn:
-                        out.append(V("C13", "C13:workplace-lists-component-that-reports-another-place[%s]" % _shape(info, cn), ex,
+                        shape = _shape(info, cn)
+                        if shape == "nested":
+                            anc, todo = set(), list(info.comp_parents.get(cn, []))
+                            while todo:
+                                a_ = todo.pop()
+                                if a_ not in anc:
+                                    anc.add(a_)
+                                    todo += info.comp_parents.get(a_, [])
+                            anc_places = set(comps[a_][1] for a_ in anc)
+                            # the part reports what its assembly reports (a workplace, or nowhere once the assembly has left) and is still listed by the
+                            # workplace it was processed in - or the other way round: it does not report where its assembly is
+                            follows = bool(anc) and anc_places == {comps[cn][1]}
+                            shape = "nested:part-follows-its-assembly-but-its-own-workplace-still-lists-it" if (follows and wpn not in anc_places) else "nested:part-does-not-report-where-its-assembly-is"
+                        out.append(V("C13", "C13:workplace-lists-component-that-reports-another-place[%s]" % shape, ex,
                                      {"t": t, "phase": ph, "workplace": wpn, "component": cn, "component_says": comps[cn][1]}))
                 used = sum((info.comps[c].get("space") or 1.0) for c in _top_most(info, lst))
                 cap = info.wp[wpn].get("cap")
